@@ -56,6 +56,8 @@ from pathlib import Path
 import flipjump
 from flipjump.fjm.fjm_consts import FJMVersion
 spec = json.loads(sys.argv[1])
+if spec.get('host_recursion_limit'):
+    sys.setrecursionlimit(spec['host_recursion_limit'])   # the program that hosts the library has its own settings
 kw = {}
 if spec.get('width') is not None: kw['memory_width'] = spec['width']
 if spec.get('version') is not None: kw['fjm_version'] = FJMVersion(spec['version'])
@@ -329,9 +331,11 @@ class Judge:
             common += ['--lzma_preset', str(opts['preset'])]
         cwd = d
         src_args = list(files)
-        if opts['relative_paths']:
+        if opts['relative_paths'] and not program.get('as_given'):
             cwd = Path(files[0]).parent
             src_args = [os.path.relpath(f, cwd) for f in files]
+        if program.get('as_given'):
+            cwd = Path(program['cwd'])      # the paths are used exactly as spelled, relative to this directory, on every route
 
         # route B: two-step  (--asm -o, then --run)
         out_b = d / 'two_step.fjm'
@@ -353,7 +357,9 @@ class Judge:
             spec = {'files': files, 'out': str(d / 'api.fjm'), 'width': width if opts['explicit_width'] else None,
                     'version': opts['version'], 'no_stl': opts['no_stl'], 'werror': opts['werror'], 'debug': None, 'run': runnable,
                     'stdin_hex': stdin.hex()}
-            rc_c, so_c, se_c = self.api(spec, d, stdin)
+            if program.get('host_recursion_limit'):
+                spec['host_recursion_limit'] = program['host_recursion_limit']
+            rc_c, so_c, se_c = self.api(spec, cwd if program.get('as_given') else d, stdin)
             rc_a, so_a, se_a = self.cli(['-s', '-o', str(d / 'one_step.fjm')] + common + src_args, cwd, stdin)
             self.count('monitor_evaluations')
             self.count('refusals_compared')
@@ -396,7 +402,9 @@ class Judge:
         if runnable:
             spec['prelude'] = str(self.prelude_fjm())
             spec['stdin_hex'] = stdin.hex()
-        rc_c, so_c, se_c = self.api(spec, d, stdin)
+        if program.get('host_recursion_limit'):
+            spec['host_recursion_limit'] = program['host_recursion_limit']
+        rc_c, so_c, se_c = self.api(spec, cwd if program.get('as_given') else d, stdin)
         self.count('monitor_evaluations')
 
         if out_a.exists() and out_a.read_bytes() != bytes_b:
@@ -510,6 +518,26 @@ def run_shard(spec: Dict[str, Any], journal: Any) -> Dict[str, Any]:
             files.append(str(extra))
         judge.one_case(rng, {'name': 'many-long-file-names', 'files': files, 'width': 64, 'stl': False, 'input': None}, runnable=True)
         judge.count('many_long_file_name_cases')
+    # an expression a few hundred operators deep: whether it is "too deep" depends on max_recursion_depth only, not on the
+    # recursion limit of the program that hosts the library
+    deep_dir = workdir / 'deep'
+    deep_dir.mkdir(exist_ok=True)
+    for k, terms in enumerate([rng.choice([300, 420]), rng.choice([520, 700, 1500])]):
+        (deep_dir / f'deep{k}.fj').write_text('dl:;dl' + '+1' * terms + '\n')
+        judge.one_case(rng, {'name': f'deep-expression-{terms}', 'files': [str(deep_dir / f'deep{k}.fj')], 'width': 64, 'stl': False, 'input': None,
+                             'host_recursion_limit': rng.choice([20000, 5000])}, runnable=False)
+        judge.count('deep_expression_cases')
+    if hello.exists():
+        # a path that goes through a symbolic link and back up: the operating system resolves it, every route must read that file
+        sym_dir = workdir / 'symlinks'
+        (sym_dir / 'real' / 'inner').mkdir(parents=True, exist_ok=True)
+        (sym_dir / 'real' / 'prog.fj').write_text(hello.read_text())
+        (sym_dir / 'prog.fj').write_text(';0\n')   # a different program under the name a lexical normalisation would pick
+        if not (sym_dir / 'link').exists():
+            os.symlink(sym_dir / 'real' / 'inner', sym_dir / 'link')
+        judge.one_case(rng, {'name': 'path-through-a-symlink', 'files': ['link/../prog.fj'], 'width': 64, 'stl': False, 'input': None,
+                             'as_given': True, 'cwd': str(sym_dir)}, runnable=True)
+        judge.count('symlink_path_cases')
     layout_dir = workdir / 'layouts'
     layout_dir.mkdir(exist_ok=True)
     for k in range(2):
